@@ -16,7 +16,7 @@ C == Cases[i]
 P0 == Parse([lines |-> C.init.lines, nl |-> C.init.nl])
 P1 == Parse([lines |-> C.final.lines, nl |-> C.final.nl])
 Calls == {k \in DOMAIN C.calls : TRUE}
-HdrC(k) == Hdr(C.calls[k].t, 1)
+HdrC(k) == Hdr(C.calls[k].t, C.calls[k].k)
 StoredC(k) == Escape(C.calls[k].v)
 KindC(k) ==
   IF HdrC(k) \notin P0.hs THEN "create"
